@@ -94,8 +94,11 @@ MemCust  == M("custom", << [c |-> "new", fam |-> 0, ssrc |-> C32], [c |-> "paylo
 MemSdes4 == M("sdes", << [c |-> "new"], [c |-> "add_chunk", v |-> Chunk(C32, <<>>)], [c |-> "padding", v |-> 4] >>, FALSE)
 MemByePad == M("bye", << [c |-> "new"], [c |-> "padding", v |-> 4] >>, FALSE)                 \* header + padding only
 MemUnkPad == M("unk", << [c |-> "new", type |-> 78, data |-> <<>>, via |-> "new"], [c |-> "padding", v |-> 8] >>, FALSE)
+MemTfb4 == M("tfb", << [c |-> "new", fci |-> [f |-> "nack", adds |-> << 7 >>], owned |-> FALSE], [c |-> "padding", v |-> 4] >>, FALSE)
+MemPfb4 == M("pfb", << [c |-> "new", fci |-> [f |-> "pli"], owned |-> TRUE], [c |-> "padding", v |-> 4] >>, TRUE)
+MemCust4 == M("custom", << [c |-> "new", fam |-> 1, ssrc |-> A32], [c |-> "padding", v |-> 4] >>, FALSE)
 Nest(ms) == M("compound", << [c |-> "new"] >> \o [i \in 1..Len(ms) |-> [c |-> "add_packet", v |-> ms[i]]], FALSE)
-Members  == { MemRR, MemBye4, MemByeBad, MemUnk, MemCust, MemSdes4, MemByePad, MemUnkPad, Nest(<<>>), Nest(<< MemRR >>), Nest(<< MemRR, MemBye4 >>) }
+Members  == { MemRR, MemBye4, MemByeBad, MemUnk, MemCust, MemSdes4, MemByePad, MemUnkPad, MemTfb4, MemPfb4, MemCust4, Nest(<<>>), Nest(<< MemRR >>), Nest(<< MemRR, MemBye4 >>) }
 
 NewsParts(k) == IF k \in {"tfb", "pfb"} THEN 5 ELSE 1
 News(k, i) ==
@@ -301,6 +304,7 @@ ParseOps ==
         ELSE IF c.kind = "custom" THEN << [op |-> "parse", kind |-> "custom", fam |-> h[1].fam, src |-> "image"] >>
         ELSE IF c.kind = "unk" THEN << [op |-> "parse", kind |-> "packet", src |-> "image"] >>
         ELSE << [op |-> "parse", kind |-> c.kind, src |-> "image"] >>
+             \o (IF Accepts(c) THEN << [op |-> "parse", kind |-> c.kind, b |-> Image(c), enc |-> "spec"] >> ELSE <<>>)
              \o (IF PadOps /\ c.padding = 0
                  THEN << [op |-> "parse_pad", kind |-> c.kind, src |-> "image", n |-> 4],
                          [op |-> "parse_pad", kind |-> c.kind, src |-> "image", n |-> 252] >>
